@@ -35,7 +35,7 @@ ET = {0: ETDRK0, 1: ETDRK1, 2: ETDRK2, 3: ETDRK3, 4: ETDRK4}
 DIMS = (1, 2, 3)
 BASE_FIELDS = {"num_spatial_dims", "domain_extent", "num_points", "num_channels", "dt", "dx", "_integrator"}
 P_LIN = {"C01", "C08", "C09", "C11", "C13", "C20"}
-P_SEMI = {"C02", "C08", "C09", "C13", "C20"}
+P_SEMI = {"C02", "C03", "C08", "C09", "C13", "C20"}   # (C03: the stepper constructors decide which fraction / scale / flags reach the nonlinear term)
 
 TABLE = []  # entries, also used by the level-2 lemmas
 
